@@ -2,7 +2,7 @@
 
 Everything here is a pure function of the JSON facts; nothing executes analysed code.
 """
-import json, os, sys
+import json, os, re, sys
 
 class Facts:
     def __init__(self, paths):
@@ -47,7 +47,11 @@ class Facts:
             return
         with open(base) as fh:
             known = {l.strip() for l in fh if l.strip() and not l.startswith('#')}
-        self.new_fns = {p for p, r in self.hir.items() if p not in known and r.get('kind') in ('Fn', 'AssocFn')}
+        # the names of an impl block's generic parameters are part of a def path (`EntryStream::<'a, 'b, S, A>::next`) but not of the
+        # function's identity: paths are compared with the generic parameter lists blanked
+        blank = lambda p: re.sub(r'::<[^<>]*(?:<[^<>]*>[^<>]*)*>', '::<>', p)
+        known_blank = {blank(k) for k in known}
+        self.new_fns = {p for p, r in self.hir.items() if p not in known and blank(p) not in known_blank and r.get('kind') in ('Fn', 'AssocFn')}
         # a private function that was merely renamed is not a new helper: a new function next to a vanished baseline function
         # of the same parent and signature is kept as a body of its own (role-based anchors find it under its new name)
         gone = [k for k in known if k not in self.hir and '::{' not in k]
